@@ -587,21 +587,21 @@ func resJSON(res proto.Message) (map[string]any, []byte, error) {
 
 // Node is one element of the oracle tree.
 type Node struct {
-	Name      string // FHIRPath element name under the parent
-	JSONKey   string // key in the parent's JSON object
-	Msg       proto.Message
-	JSON      any    // JSON value (nil when only the _x companion exists)
-	Prim      bool   // primitive element
-	Synth     bool   // no proto node: the synthesised `reference` string
-	ViaAny    bool   // reached through a contained Any (no pointer identity)
-	Choice    bool   // reached through a choice wrapper
-	IsList    bool   // the field is repeated
-	Index     int    // position in the parent's list (0 for scalars)
-	Parent    *Node
-	Kids      map[string][]*Node
-	KidOrder  []string
-	TypeName  string // proto message name of Msg
-	Backbone  bool
+	Name     string // FHIRPath element name under the parent
+	JSONKey  string // key in the parent's JSON object
+	Msg      proto.Message
+	JSON     any  // JSON value (nil when only the _x companion exists)
+	Prim     bool // primitive element
+	Synth    bool // no proto node: the synthesised `reference` string
+	ViaAny   bool // reached through a contained Any (no pointer identity)
+	Choice   bool // reached through a choice wrapper
+	IsList   bool // the field is repeated
+	Index    int  // position in the parent's list (0 for scalars)
+	Parent   *Node
+	Kids     map[string][]*Node
+	KidOrder []string
+	TypeName string // proto message name of Msg
+	Backbone bool
 }
 
 type pairErr struct{ msgs []string }
@@ -897,7 +897,6 @@ func c02IndexedSteps(n *Node, mask int) []step {
 	}
 	return steps
 }
-
 
 var fpKeywords = map[string]bool{"div": true, "mod": true, "and": true, "or": true, "xor": true, "implies": true, "true": true, "false": true,
 	"year": true, "years": true, "month": true, "months": true, "week": true, "weeks": true, "day": true, "days": true, "hour": true, "hours": true,
